@@ -1,6 +1,7 @@
 package main
 
 import (
+	"go/token"
 	"go/types"
 	"strings"
 
@@ -51,6 +52,89 @@ func (p *P) mustModNilD(g *ssa.Function, m M, depth int) bool {
 			return relOn(ifi.Cond, i == 0, isMgr, isNilConst) != "=="
 		}, nil)
 	return res.OK
+}
+
+// deferredDischarge: `in` is `defer func() { if done { return }; ...cleanup... }()` (or a plain deferred cleanup) and
+// the closure performs m on every path on which its success flag is still false; the flag (a captured local) is set
+// to true only where no error exit can follow. Such a defer discharges "released on every error exit" obligations
+// for all exits after it.
+func (p *P) deferredDischarge(f *ssa.Function, in ssa.Instruction, m M) bool {
+	d, ok := in.(*ssa.Defer)
+	if !ok {
+		return false
+	}
+	mc, ok := d.Call.Value.(*ssa.MakeClosure)
+	if !ok {
+		if g := d.Call.StaticCallee(); g != nil && g.Pkg == p.Pkg {
+			return p.mustModNil(g, m)
+		}
+		return false
+	}
+	g, _ := mc.Fn.(*ssa.Function)
+	if g == nil || g.Blocks == nil {
+		return false
+	}
+	flags := map[*ssa.Alloc]bool{}
+	res := p.mustPass(g, []Point{{g.Blocks[0], -1}}, func(i2 ssa.Instruction) bool {
+		if m.F(i2) {
+			return true
+		}
+		if h := p.localCallee(i2); h != nil && h != g {
+			if _, isGo := i2.(*ssa.Go); !isGo {
+				return p.mustModNilD(h, m, 2)
+			}
+		}
+		return false
+	}, func(b *ssa.BasicBlock, i int) bool {
+		ifi := blockIf(b)
+		if ifi == nil {
+			return true
+		}
+		cond, neg := stripNot(ifi.Cond)
+		if u, ok := cond.(*ssa.UnOp); ok && u.Op == token.MUL {
+			if fv, ok := u.X.(*ssa.FreeVar); ok {
+				for k, v := range g.FreeVars {
+					if v == fv && k < len(mc.Bindings) {
+						if al, ok := mc.Bindings[k].(*ssa.Alloc); ok {
+							flags[al] = true
+							if (i == 0) != neg {
+								return false // flag set: the function succeeded, nothing to release
+							}
+						}
+					}
+				}
+			}
+		}
+		isMgr := func(v ssa.Value) bool {
+			fa, ok := loadOfField(v)
+			return ok && (fieldKey(fa) == "Session.queueManager" || fieldKey(fa) == "Session.bufferManager")
+		}
+		return relOn(ifi.Cond, i == 0, isMgr, isNilConst) != "=="
+	}, nil)
+	if !res.OK {
+		return false
+	}
+	for al := range flags {
+		for _, ref := range *al.Referrers() {
+			st, ok := ref.(*ssa.Store)
+			if !ok || st.Addr != ssa.Value(al) {
+				continue
+			}
+			c, isC := st.Val.(*ssa.Const)
+			if isC && c.Value != nil && c.Value.String() == "false" {
+				continue
+			}
+			// after the flag is set no error exit may follow
+			okp, _ := p.findBadPath(f, []Point{pointOf(st)}, pathOpts{Bad: func(i2 ssa.Instruction) bool {
+				ret, isRet := i2.(*ssa.Return)
+				return isRet && !(f.Recover != nil && ret.Block() == f.Recover) && isErrorExit(ret)
+			}})
+			if !okp {
+				return false
+			}
+		}
+	}
+	return true
 }
 
 func runC12(p *P, r *R) {
@@ -182,7 +266,9 @@ func c12Resources(p *P, r *R) {
 			}
 		}
 		ok, res := p.findBadPath(ns, []Point{pointOf(ac)}, pathOpts{
-			Discharge: func(in ssa.Instruction) bool { return p.evMust(in, fileClose, inlineDepth) },
+			Discharge: func(in ssa.Instruction) bool {
+				return p.evMust(in, fileClose, inlineDepth) || p.deferredDischarge(ns, in, fileClose)
+			},
 			Bad: func(in ssa.Instruction) bool {
 				ret, isRet := in.(*ssa.Return)
 				return isRet && errorReturn(in) && isErrorExit(ret)
@@ -216,6 +302,17 @@ func c12Resources(p *P, r *R) {
 					return true
 				}
 				return false
+			}
+			// a deferred guarded cleanup armed before the handshake covers every later exit
+			armed := false
+			for _, di := range findInstrs(ns, M{ID: "defer", F: func(i2 ssa.Instruction) bool { _, isD := i2.(*ssa.Defer); return isD }}) {
+				if instrDominates(di, ai) && p.deferredDischarge(ns, di, m) {
+					armed = true
+				}
+			}
+			if armed {
+				r.ob("R12.2", "newSession: the "+what.name+" is released on every error exit after the handshake started", p.ipos(ai), true, true, "deferred cleanup guarded by a success flag")
+				continue
 			}
 			ok, res := p.findBadPath(ns, []Point{pointOf(ai)}, pathOpts{
 				Discharge: disch,
@@ -481,6 +578,61 @@ func c12Race(p *P, r *R) {
 		r.ob("R12.3", "initProtocol: the handshake goroutine reports a result on every exit", p.pos(g.Pos()), res.OK, true, "%s", p.pathString(res))
 	}
 	r.ob("R12.3", "initProtocol: the goroutine reports through non-blocking sends only", p.pos(ip.Pos()), nonBlocking && n > 0, true, "")
+
+	// the time-out only bounds what runs in the spawned goroutine: nothing the calling goroutine executes itself
+	// (before or after arming the timer) may reach a blocking socket read of the handshake
+	blocking := map[*ssa.Function]bool{}
+	mSock := p.mCall("golang.org/x/sys/unix.Read", "golang.org/x/sys/unix.Recvmsg", "syscall.Read", "syscall.Recvmsg")
+	for _, f := range p.fnList {
+		if len(findInstrs(f, mSock)) > 0 {
+			blocking[f] = true
+		}
+	}
+	r.count("R12.3", "blocking socket-read primitives", len(blocking), 2)
+	cg := p.callGraph()
+	reach := map[*ssa.Function]bool{}
+	var visit func(f *ssa.Function, depth int) bool
+	visit = func(f *ssa.Function, depth int) bool {
+		if blocking[f] {
+			return true
+		}
+		if v, ok := reach[f]; ok {
+			return v
+		}
+		reach[f] = false
+		if depth <= 0 || f.Pkg != p.Pkg {
+			return false
+		}
+		if nd := cg.Nodes[f]; nd != nil {
+			for _, e := range nd.Out {
+				if _, isGo := e.Site.(*ssa.Go); isGo {
+					continue
+				}
+				if visit(e.Callee.Func, depth-1) {
+					reach[f] = true
+					return true
+				}
+			}
+		}
+		return false
+	}
+	okCaller := true
+	detail := ""
+	if nd := cg.Nodes[ip]; nd != nil {
+		for _, e := range nd.Out {
+			if _, isGo := e.Site.(*ssa.Go); isGo {
+				continue
+			}
+			if e.Site != nil && e.Site.Parent() == ip && visit(e.Callee.Func, 8) {
+				okCaller = false
+				detail = p.fname(e.Callee.Func) + " (called at " + p.ipos(e.Site) + ") reaches a blocking socket read outside the timed goroutine"
+			}
+		}
+	} else {
+		okCaller = false
+		detail = "initProtocol not in the call graph"
+	}
+	r.ob("R12.3", "initProtocol: every blocking read of the handshake runs inside the goroutine that is raced against the timer", p.pos(ip.Pos()), okCaller, true, "%s", detail)
 }
 
 // R12.4
